@@ -12,4 +12,7 @@ INVARIANT PRefutesBlankPrefix
 INVARIANT PRefutesIdentity
 INVARIANT EmptyPrefixLoose
 INVARIANT PrefixIsWs
+INVARIANT IndentZero
+INVARIANT IndentFirst
+INVARIANT IndentBlankAll
 CHECK_DEADLOCK FALSE
